@@ -61,6 +61,14 @@ class Fail(Exception):
     pass
 
 
+class FalsyFail(Fail):
+    """false in a boolean context (see engines/sc.py FalsyBoom)"""
+
+    def __bool__(self):
+        return False
+
+
+
 def gen_case(seed, tier, prop="C20"):
     rng = random.Random(seed)
     big = tier == "thorough"
@@ -126,7 +134,7 @@ class RefLRU:
             del self.d[key]
         self.counter[0] += 1
         if self.plan["fail"]:
-            raise Fail(k)
+            raise (FalsyFail if self.counter[0] % 2 else Fail)(k)
         val = shape(k, self.counter[0])
         if self.maxsize == 0:
             return val
@@ -163,7 +171,7 @@ class SeqRun:
             na[0] += 1
             await sleep(0)
             if plan["fail"]:
-                raise Fail(k)
+                raise (FalsyFail if na[0] % 2 else Fail)(k)
             return shape(k, na[0])
 
         if ttl is None:
@@ -171,7 +179,7 @@ class SeqRun:
             def sf(k=None):
                 ns[0] += 1
                 if plan["fail"]:
-                    raise Fail(k)
+                    raise (FalsyFail if ns[0] % 2 else Fail)(k)
                 return shape(k, ns[0])
         else:
             sf = RefLRU(c["maxsize"], c["typed"], ttl, ns, plan, lambda: anyio.current_time())
@@ -269,7 +277,7 @@ class ConcRun:
                 await sleep(beh["dur"])
                 if beh["fail"]:
                     run.faults["wrapped_fn_fails"] += 1
-                    raise Fail(key, n)
+                    raise (FalsyFail if n % 2 else Fail)(key, n)
                 val = (key, n)
                 produced[val] = (key, current_time())
                 return val
